@@ -98,7 +98,7 @@ def print_unit(repo):
         interp = Interp(repo, ctx, {})
         ncls = repo.cls(PM, 'Notation')
         d = ctx.input('ppat', 'definition')
-        fmt = '{0} <op> {1} # {2}'
+        fmt = SStr([('name', ctx.input('name', 'format_str').t)])     # an arbitrary format string
         n = Obj(ncls, {'label': 'n', 'arity': 3, 'definition': d, 'format_str': fmt})
         args = [ctx.input('ppat', f'arg{i}') for i in range(3)]
         applied = interp.mk_pat('Instantiate', [d, {0: args[0], 1: args[1], 2: args[2]}])
@@ -118,6 +118,7 @@ def print_unit(repo):
         res = interp.run_function(f, [n, applied, opts])
         want = SStr([('fmt', fmt, tuple(SStr([('pretty', a.t.sexpr())]) for a in args))])
         ok = isinstance(res, SStr) and res.key() == want.key()
+        ctx.cover('print_instantiation returned')
         ctx.oblige('post:rendering is the format string applied to the renderings of the arguments in key order', z3.BoolVal(bool(ok)), kind='post',
                    got=repr(res))
         return res
